@@ -266,7 +266,8 @@ PanicRes == [k |-> "panic", b |-> Z8, n |-> 0, d |-> 1, t |-> ""]
 AnyRes   == [k |-> "any",   b |-> Z8, n |-> 0, d |-> 1, t |-> ""]
 
 IntRing(op, R, x, y) ==
-  IF x.k # "int" \/ y.k # "int" THEN (IF x.k = "opq" \/ y.k = "opq" THEN Opq ELSE IDef)
+  IF op = "Div" /\ y.k = "int" /\ y.b = Z8 THEN PanicRes       \* whatever the dividend
+  ELSE IF x.k # "int" \/ y.k # "int" THEN (IF x.k = "opq" \/ y.k = "opq" THEN Opq ELSE IDef)
   ELSE LET w == W(R) IN
        CASE op = "Add" -> VInt(Wrap(w, BAdd(x.b, y.b)))
          [] op = "Sub" -> VInt(Wrap(w, BSub(x.b, y.b)))
